@@ -12,6 +12,7 @@ import (
 
 	"github.com/B1NARY-GR0UP/originium"
 	"github.com/B1NARY-GR0UP/originium/pkg/logger"
+	"github.com/B1NARY-GR0UP/originium/types"
 
 	"verifsim/simrt"
 )
@@ -542,6 +543,13 @@ func RunCase(t *testing.T, c *Case, trace bool) *RunResult {
 		r.ack = newAckModel()
 		r.crash = newCrashRecorder(r)
 		opt.OnFS = r.crash.onFS
+	}
+	if c.BaseTs > 0 {
+		// plant a table with one foreign key at version BaseTs (outside the simulation)
+		lm := originium.VerifNewLM(dir, toCfg(c.Configs[0]), 0)
+		_ = lm.Flush([]types.Entry{{Key: types.KeyWithTs("~base~", c.BaseTs), Value: []byte("base"), Version: int64(c.BaseTs)}})
+		lm.Stop()
+		res.Probes["planted_base_ts"]++
 	}
 	s := simrt.Run(t, opt, func(s *simrt.Sim) {
 		r.s = s
